@@ -31,7 +31,8 @@ Proof.
     unfold pc_ne. rewrite Er2, rs_entry_set.
     destruct ((v_h (k_vot s) =? h0) && (r =? r0)) eqn:E; [|exact Hc0].
     apply andb_true_iff in E as [A B]. apply N.eqb_eq in A, B. subst h0 r0. apply Hpc. exact Hc0. }
-  split; [|eapply pref_one; [exact Hlog|exact Hst|exact Xs|exact S2]].
+  split; [|eapply pref_one; [exact Hlog|exact Hst|exact Xs|exact S2|
+             eapply adv_sadv; [exact (proj1 HI)|eapply cinv_frame; [exact F|exact (proj1 HI)]|apply adv_frame; exact F]]].
   split; [eapply INV_frame_rounds; eassumption|].
   split; [eapply pok_frame; [rewrite Ev; reflexivity|rewrite En; reflexivity|exact HP]|].
   split; [eapply comvals_frame; eassumption|].
